@@ -82,6 +82,7 @@ type c07job struct {
 	disps []*c07dispCase
 	sess  []*c07sessCase
 	stmts []*c07stmtCase
+	lits  []*c07litCase
 	echos []*c07echoCase
 	count map[string]int
 	evals int
